@@ -24,6 +24,7 @@ func runC12(c *Ctx) {
 	c.rule("visited-flags-written", "the Visit callback returns without writing the field (or recording an error) only when the flag name is unknown or its value cannot be obtained: a flag that was given on the command line is never silently dropped", 2)
 	c.rule("default-from-template", "every flag registration's default (or the pointer wrapped by its helper) derives from transform.GetField(sf, tmpl) of the same iteration", 60)
 	c.rule("kind-table", "in each kind arm of the registration switch the reflect type converted to, the asserted Go type and the arm's kind agree", 30)
+	c.rule("flag-name-recorded", "in both flag packages every flag name computed for a field is recorded in the name->field table on every path of that loop iteration (in particular before the 'flag already registered by the application' skip)", 2)
 	c.rule("helper-writes-through", "every pointer-backed flag helper the pflag source constructs (and whose pointer it keeps to read the value back) writes through that pointer in Set and never re-binds it", 5)
 	c.rule("narrowing-guard", "standard-library flags: the reflect conversion to the field's (possibly narrower) type is dominated by the overflow helper returning false; the helper routes every integer kind to OverflowInt, unsigned to OverflowUint, both float kinds to OverflowFloat and both complex kinds to OverflowComplex", 5)
 	c.rule("error-not-value", "when an overflow was recorded, Value returns it as a non-nil error and the reverse-translated value is not returned", 1)
@@ -159,6 +160,7 @@ func runC12(c *Ctx) {
 		c12Accumulate(c, f, typ)
 	}
 	c12WritesThrough(c)
+	c12NameRecorded(c, "flag-name-recorded")
 }
 
 func c12FromGetField(v ssa.Value, getField *ssa.Function, d int) bool {
@@ -662,4 +664,56 @@ func c12VisitClosures(c *Ctx) {
 			}
 		}
 	}
+}
+
+// c12NameRecorded: in the registration loop of both flag packages the
+// name->field map entry is written on every path from the computation of the
+// flag name to the end of that iteration.
+func c12NameRecorded(c *Ctx, rule string) {
+	w := c.W
+	for _, rel := range []string{"sources/flag", "sources/pflag"} {
+		reg := w.fn(rel, "Set.registerFlags")
+		mk := w.fn(rel, "Set.mkname")
+		if !c.need(reg != nil && mk != nil, rel+".Set.registerFlags / mkname") {
+			continue
+		}
+		c.analysed(relName(reg))
+		for _, ci := range callsToFn(reg, mk) {
+			call := ci.(*ssa.Call)
+			// the loop header
+			var hdr *ssa.BasicBlock
+			for b := call.Block(); b != nil; b = b.Idom() {
+				for _, p := range b.Preds {
+					if b.Dominates(p) && inLoopBody(b, call.Block()) {
+						hdr = b
+					}
+				}
+				if hdr != nil {
+					break
+				}
+			}
+			if hdr == nil {
+				c.undecided(rule, rel, call.Pos(), "the flag name is not computed inside a loop")
+				continue
+			}
+			isRecord := func(i ssa.Instruction) bool {
+				mu, ok := i.(*ssa.MapUpdate)
+				if !ok || mu.Key != ssa.Value(call) {
+					return false
+				}
+				_, isFld := loadOfTypeField(mu.Map, rel+".Set", "flagFieldName")
+				return isFld
+			}
+			hit := reachAvoid(reg, call, func(i ssa.Instruction) bool { return i == hdr.Instrs[0] || isReturn(i) && retIsNilErr(i) }, isRecord)
+			c.check(hit == nil, rule, rel, call.Pos(), "flagFieldName[name] is written on every path of the iteration after mkname", "an iteration can end (e.g. through the 'flag already exists' skip) without recording the flag name in flagFieldName: a flag the application registered itself is ignored by Value and lower layers win")
+		}
+	}
+}
+
+func retIsNilErr(i ssa.Instruction) bool {
+	r, ok := i.(*ssa.Return)
+	if !ok || len(r.Results) == 0 {
+		return ok
+	}
+	return isNilConst(r.Results[len(r.Results)-1])
 }
